@@ -15,12 +15,12 @@ type relay struct {
 	addr     string
 	upstream string
 
-	mu       sync.Mutex
-	cond     *sync.Cond
-	conns    map[*rconn]struct{}
-	accepted int
+	mu        sync.Mutex
+	cond      *sync.Cond
+	conns     map[*rconn]struct{}
+	accepted  int
 	clientEOF int // connections that the sender side closed
-	done     bool
+	done      bool
 }
 
 type rconn struct {
